@@ -374,6 +374,28 @@ def run_case(ck, desc):
     if not ck.margin("round trip recovers M and tau (1e-3)", max(eM, et), 1e-3):
         known = _k3(desc, f, t, y)
         ck.violation("round-trip", {"M_true": M, "M_fit": float(fo.M_), "tau_true": tau, "tau_fit": float(fo.tau_), "p0": c["p0"], "nfev": c["nfev"], "mesg": c["mesg"], "data_magnitude": float(np.max(np.abs(y)))}, desc, known_key=known)
+    if desc["n"] % 11 == 0:
+        # four forecasters fitted from four threads at once (one well per thread): each fit equals the
+        # same fit made alone
+        def _fit(fc, tt, yy, forecaster=ForecasterOnePhase):
+            fo_ = forecaster(fc)
+            with warnings.catch_warnings():
+                warnings.simplefilter("ignore")
+                fo_.fit(tt, yy)
+            return np.array([fo_.M_, fo_.tau_], dtype=float)
+
+        import functools
+
+        names = ["ideal", "realgas", "fourier", "cubic-table"]
+        groups = [[functools.partial(_fit, curve(nm), t * (1 + 0.1 * k), (1 + k) * M * np.asarray(curve(nm)(t / tau), dtype=float))] * 2 for k, nm in enumerate(names)]
+        bad, errs, n_calls = instrument.concurrent_vs_alone(groups)
+        _drain()
+        ck.count("concurrent_evaluations", n_calls)
+        ck.count("thread_groups")
+        for k_, i_, a, b in bad[:3]:
+            ck.violation("threads-same-value-as-the-call-made-alone", {"curve": names[k_], "concurrent": np.asarray(a).tolist(), "alone": np.asarray(b).tolist()}, desc)
+        if any(e[0] < 0 for e in errs):
+            ck.violation("threads-every-call-returns", {"errors": [e[2] for e in errs[:3]]}, desc)
     # a second forecaster (another curve, other data) is fitted afterwards: the first one keeps its own
     # fitted parameters and forecasts with them
     if desc["n"] % 3 == 0:
